@@ -269,7 +269,7 @@ var creds = []string{"header", "basic+query", "bearer", "header", "none", "wrong
 var hostileTexts = []string{"", " ", "1 ", " 1", "+1", "-", "--1", "1.0", "1e3", "0x10", "1_000", "９", "99999999999999999999", "-99999999999999999999",
 	"2147483648", "300", "-129", "256", "70000", "65536", "-32769", "128", "-1", "4294967296", "NaN", "Inf", "true", "null", "1,2", "1;2", "\x7f", "a:b", "://x", "http://[::1", "http://h:port/", "2021-13-45", "2021-02-30", "2021-1-2",
 	"0000-00-00", "3fa85f64-5717-4562-b3fc-2c963f66afa", "zfa85f64-5717-4562-b3fc-2c963f66afa6", "{}", "[]", "256.1.1.1", "1.2.3", "P1D", "1h", "-1s",
-	"2021-01-02 03:04:05", "12", "delta", "Alpha", strings.Repeat("1", 5000), strings.Repeat("a", 70000)}
+	"2021-01-02 03:04:05", "12", "delta", "Alpha", "role,admin,name", "role,admin,name,", "role", "role,admin,role,root", "name,n,role,r,x", strings.Repeat("1", 5000), strings.Repeat("a", 70000)}
 
 // rawEscapes go on the wire as they are: escapes that decode to nothing sensible.
 var rawEscapes = []string{"%zz", "%", "%4", "a%00b", "%C0%AF", "%FF%FE", "%2", "1%"}
@@ -287,7 +287,7 @@ var worldRoutes = []struct {
 	{"echoJSON", "POST", []string{"echo", "json", "*"}}, {"echoJSONStream", "POST", []string{"echo", "jsonstream"}}, {"echoForm", "POST", []string{"echo", "form"}},
 	{"echoMultipart", "POST", []string{"echo", "multipart"}}, {"echoStream", "POST", []string{"echo", "stream"}}, {"echoWild", "POST", []string{"echo", "wild"}},
 	{"echoParams", "GET", []string{"echo", "params", "*", "*", "*"}}, {"echoShapes", "POST", []string{"echo", "shapes", "*"}}, {"variants", "POST", []string{"variants"}},
-	{"secure", "GET", []string{"secure"}}, {"secure2", "GET", []string{"secure2"}}, {"echoSeg", "GET", []string{"echo", "seg", "*", "*"}},
+	{"secure", "GET", []string{"secure"}}, {"secure2", "GET", []string{"secure2"}}, {"echoSeg", "GET", []string{"echo", "seg", "~^.+;.+$|v;v", "~^v\\(.+\\)$|v(v)"}},
 }
 
 // worldRoute says which operation a raw (escaped) path designates: segments are what lies between literal
@@ -305,6 +305,14 @@ func worldRoute(raw string) (op, method string) {
 		ok := true
 		for i, want := range rt.segs {
 			got, err := url.PathUnescape(segs[i])
+			if re, _, partial := strings.Cut(strings.TrimPrefix(want, "~"), "|"); partial && strings.HasPrefix(want, "~") {
+				// parameters that share the segment with literal text: "~<regular expression>|<placeholder>"
+				if err != nil || !regexp.MustCompile(re).MatchString(got) {
+					ok = false
+					break
+				}
+				continue
+			}
 			if err != nil || (want == "*" && segs[i] == "") || (want != "*" && got != want) {
 				ok = false
 				break
@@ -329,6 +337,9 @@ func worldPathAfter(op string, seg int, val string) (string, bool) {
 			segs[i] = s
 			if s == "*" {
 				segs[i] = "v" // stands for whatever non-empty value the client sent
+			}
+			if _, ph, ok := strings.Cut(s, "|"); ok && strings.HasPrefix(s, "~") {
+				segs[i] = ph
 			}
 		}
 		segs[seg%len(segs)] = val
@@ -450,6 +461,10 @@ func certainlyInvalid(typ, text string) bool {
 		return false
 	case "kind":
 		return text != "alpha" && text != "beta" && text != "gamma"
+	case "kvlist":
+		// an object in a non-exploded form or simple style is a list key,value,key,value: an odd number of pieces
+		// leaves a key without a value
+		return len(strings.Split(text, ","))%2 == 1
 	}
 	return false
 }
@@ -458,7 +473,8 @@ func certainlyInvalid(typ, text string) bool {
 var worldParamTypes = map[string]map[string]string{
 	"echoShapes": {"query:n32": "int32", "query:id": "uuid", "query:when": "date", "query:at": "date-time", "query:addr": "ipv4", "header:X-Num": "int64", "cookie:cnum": "int", "path:2": "kind",
 		"query:link": "", "query:ratio": "", "query:dur": "", "query:big": "", "header:X-Flag": "",
-		"query:lvl": "int8", "header:X-Cnt": "int16", "cookie:u8": "uint8", "query:u16s": ""},
+		"query:lvl": "int8", "header:X-Cnt": "int16", "cookie:u8": "uint8", "query:u16s": "",
+		"query:obj": "kvlist", "header:X-Obj": "kvlist"},
 	"echoJSON":   {"path:2": "int64", "header:X-Req": "", "query:q": "", "cookie:sess": ""},
 	"echoStream": {"header:X-Len": "int"},
 	"echoParams": {"path:3": "", "query:csv": "", "header:X-List": "", "cookie:ck": ""},
@@ -882,7 +898,9 @@ func oracleC15(r *CallRecord) []problem {
 					if s.MiddlewareOps > 0 && !strings.HasPrefix(s.MiddlewareSaw, want+" ") {
 						add("a request reaches only the operation its path designates", fmt.Sprintf("delivery %d: path rewritten to %s designates %s, middleware saw %s", i, raw, want, clip(s.MiddlewareSaw, 80)))
 					}
-					if s.MiddlewareOps == 0 && s.Status != 400 && s.Status != 401 && s.Status != 415 {
+					// (where parameters share a segment with literal text, which text belongs to which parameter is ogen's
+					// choice: it may read the path as not matching)
+					if s.MiddlewareOps == 0 && s.Status != 400 && s.Status != 401 && s.Status != 415 && !(s.Status == 404 && op == "echoSeg") {
 						add("a request that does not reach the handler is answered 404/405/401/400/415", fmt.Sprintf("delivery %d: path rewritten to %s designates %s: status %d without a handler call", i, raw, want, s.Status))
 					}
 				}
